@@ -4,3 +4,18 @@ open Pcore.Lat
 #print axioms C19_assert_iff
 #print axioms C19_nonempty_iff
 #print axioms C19_assert_sound
+open Pcore.Desc
+#print axioms C19_describe_total
+#print axioms C19_describe_empty_iff
+#print axioms C19_describe_nonempty
+#print axioms C19_describe_justified
+#print axioms C19_path_valid
+#print axioms C19_prefix_kept
+#print axioms C19_names_subject
+#print axioms C19_missingKey_real
+#print axioms C19_missingKey_real_any
+#print axioms C19_extraneousKey_real
+#print axioms C19_sizeMismatch_merged_hull
+#print axioms C19_sizeMismatch_real_false
+#print axioms C19_typeMismatch_nested_wrapper
+#print axioms C19_typeMismatch_real_false
